@@ -1,7 +1,11 @@
 #!/bin/bash
-# dev-only: tools/mut.sh <prop> <file-in-repo> <python-regex> <replacement>  — apply, check, undo
+# dev-only self-test: tools/mut.sh <prop> <file-in-repo> <python-regex> <replacement>
+# applies one mutation to $JADE_SRC (default /repo; sub-agents use their own scratch worktree),
+# runs the quick check of this /verif copy, and restores the tree.
 prop=$1; f=$2; pat=$3; rep=$4
-cd /repo || exit 2
+here="$(cd "$(dirname "$0")/.." && pwd)"
+src="${JADE_SRC:-/repo}"
+cd "$src" || exit 2
 python3 - "$f" "$pat" "$rep" <<'PY'
 import re,sys
 f,pat,rep=sys.argv[1:4]
@@ -12,6 +16,5 @@ open(f,'w').write(n[0])
 PY
 [ $? -eq 0 ] || { git checkout -- .; exit 2; }
 git diff --stat | tail -1
-cd /verif && ./check $prop quick 2>&1 | tail -4
-echo "exit=$?"
-git -C /repo checkout -- .
+(cd "$here" && JADE_SRC="$src" ./check $prop quick 2>&1 | tail -4)
+git -C "$src" checkout -- .
